@@ -551,8 +551,10 @@ pub fn scenario(ctx: &mut Ctx) -> ScResult {
     let quiet = net.faults_until + 61 * SEC;
     for c in clients.iter() {
         for t in c.sim.model.live() {
+            // (from the later of its last transmission and the end of the faults: after a
+            // reconfiguration in mid-schedule `sent_at + whole schedule` would be too small)
             let total: u64 = (t.intervals_ms.iter().sum::<u64>() + t.final_ms) * MS;
-            let bound = t.sent_at.max(quiet) + total + SEC;
+            let bound = t.sent_at.max(t.last).max(quiet) + total + SEC;
             if net.now > bound {
                 let v = Violation::new("C05", "completes_within_bound", "world_after_quiescence", format!("transaction {:#x} sent at +{} is still outstanding at +{}, more than its whole schedule ({} ms) after faults stopped", t.tid, fmt_ns(t.sent_at as i128), fmt_ns(net.now as i128), total / MS));
                 ev!(ctx, "  !! {}", v.message);
@@ -617,7 +619,7 @@ fn deliver_to_client(ctx: &mut Ctx, c: &mut Client, at: u64, bytes: Vec<u8>, fro
         Reply::Drop => {
             ctx.st.inc("out.dropped");
             if let Some(tid) = tid_of(&bytes) {
-                if c.sim.model.live_idx(tid).is_some() {
+                if c.sim.model.live_idx(tid).map_or(false, |i| !c.sim.model.txs[i].rc) {
                     let q = c.sim.call(ctx, Call::QueryTx { tid })?;
                     if !matches!(q, Reply::Tx(Some(_))) {
                         let pr = if ctx.cfg.prop == "C05" { "C05" } else { "C07" };
